@@ -313,6 +313,12 @@ def eval_families(arg):
         out["fam"] += 1
         if any(r.exc for r in rs):
             out["thrown"] += 1
+            # only a tachyonic spectrum (EPhysicalProblem) legitimately removes a family; every lattice input is
+            # inside the documented domain, any other exception class means valid input is refused
+            bad = next(((c_, r_) for c_, r_ in zip(cs, rs) if r_.exc and r_.exc[0] != "EPhysicalProblem"), None)
+            if bad:
+                out["fails"].append(("%s:valid-input-refused:%s" % (part, bad[1].exc[0]),
+                                     "input inside the documented domain is refused: %s %s; %s" % (bad[1].exc[0], bad[1].exc[1], brief(bad[0])), cs))
             continue
         if min(r.S[T.MHH0] for r in rs) <= 1e-4 * rs[0].S[T.SM_MZ]:
             out["massless"] += 1       # flat direction: massless h, a_mu (and the SM limit m_hSM = m_h) is not defined
@@ -419,6 +425,7 @@ def run(ctx):
         "(ii) decision = finite + envelope |a_m| <= max_k 0.45^(m-k)|a_k| + literal decoupling from 3.16 TeV on when the first step fails; literal per-step failures at a zero crossing / on the first rung are counted, not reported",
         "(ii) step failures of the bosonic part with |a| < 2e-15 or within 8x the measured rounding noise are the known rounding-noise finding (2LB only); every other failure of the decision is a violation",
         "the SM input set (default / complete alternate set: MW, MZ, alpha_em, alpha_s, fermion masses) is a dimension of (i) and a factor of (ii); every harness process evaluates both sets interleaved, every 4th process is repeated in reversed order and compared bitwise",
+        "a constructor exception other than EPhysicalProblem (tachyon) on a lattice point is a violation (valid input refused)",
         "SM Higgs mass is set to the model's own Mhh(0) by a second construction (harness option mhsm=auto)"]
     return ctx.finish(
         "(i) all assignments with <= %d deviating dimensions from 3 base points (heavy masses, tan(beta), lambda_6/7, m12^2, type, CKM, zeta/Delta/Pi, SM input set) x m_h ladder; "
